@@ -84,7 +84,11 @@ CONFIG = dict(
                   "arrived for 16 scheduler turns; the reference checker Wire.lean is trusted as a reading of the text "
                   "(hand-checked decide examples for every clause, no model behind it)",
                   "(wire) stream: a case whose 2 s timer could have fired before the case's `timer` event is reported "
-                  "`(wire-inconclusive timer-race)` and accepted (none in 420 development cases)"],
+                  "`(wire-inconclusive timer-race)` and accepted (none in 420 development cases); a case that cannot set up its "
+                  "sockets although it retried for minutes (the box out of ephemeral ports: AddrInUse on bind/connect) or "
+                  "exceeds 400 s four times is `(wire-inconclusive setup|timeout)` and accepted too — only environment "
+                  "failures are, never what the daemon sends or omits; the harness prints each such case and the first "
+                  "panic messages on stderr"],
     modelled_not_verified=["(case) stream: the sleep of the selection-deferral timer task (expiry is an explicit event calling the real "
                            "handler); in the (wire) stream the real task sleeps and fires",
                            "(wire) stream: one origin per prefix, three families on every session, no Add-Path, default policies; "
